@@ -359,7 +359,11 @@ class NodeDictionary(NodeParameter):
             for items in self._param_value.items() for x in items)
 
     def _as_osc_arg_list(self):
-        return self._as_control_input()
+        lst = []
+        for item in self._param_value.items():
+            for e in item:
+                node_param(e)._embed_as_osc_arg(lst)
+        return lst
 
     def _embed_as_osc_arg(self, lst):
         lst.append('[')
